@@ -29,8 +29,9 @@ PKG = "builderx"
 # against the path dependency of harness/builderx/Cargo.toml)
 SRC_ROOT = os.environ.get("VERIF_C19_SRC", REPO)
 HEADER = "Require Import SqlV.Base SqlV.Builder SqlVGen.BuilderRouting.\n"
-# self-test hook: directory holding bx_extract / bx_drive built from a scratch copy of the crate
-# whose sqlparser path dependency points at a mutated scratch copy of /repo
+# self-test hook: directory holding bx_extract / bx_drive built (with CARGO_TARGET_DIR under
+# /var/tmp, never into /verif/.cache) from a scratch copy of the crate whose sqlparser path
+# dependency points at a mutated scratch copy of /repo
 SELFTEST_BIN = os.environ.get("VERIF_C19_SELFTEST_BIN")
 import common as _common
 
@@ -38,13 +39,15 @@ import common as _common
 def _bx(fn, *a, **k):
     if not SELFTEST_BIN:
         return fn(*a, **k)
-    old = _common.BIN
-    _common.BIN = SELFTEST_BIN
+    old = _common.bin_path
+    _common.bin_path = lambda pkg, name: os.path.join(SELFTEST_BIN, name) if pkg == PKG else old(pkg, name)
     _common._built.add(PKG)
     try:
         return fn(*a, **k)
     finally:
-        _common.BIN = old
+        _common.bin_path = old
+
+
 MAX_REPORTS = 6
 MISSING = object()
 # CREATE TABLE / SHOW CREATE texts for options the harvested corpus does not exercise (kept private to
